@@ -291,6 +291,13 @@ func classOf(ops []*world.Op) string {
 // operations across the boundary: w = Write, k = UpdateKeys (1.3), r = the peer's final handshake datagram
 // arrives again (final-flight resend / ACK), x = Close (alert).
 func wrapRun(t *testing.T, p *world.PKI, cc cfgCase, clientSends bool, ops string, seed uint64) run.Outcome {
+	return wrapRunAt(t, p, cc, clientSends, ops, uint64(1)<<48-1, seed)
+}
+
+// wrapRunAt: as wrapRun, around an arbitrary last-number-before-the-boundary (maxSeq). Below 2^48-1 no
+// write may fail: the records must simply carry increasing numbers and open under the reference keys at
+// those numbers (DTLS 1.3 puts only 16 bits of the number on the wire and derives the nonce from all of it).
+func wrapRunAt(t *testing.T, p *world.PKI, cc cfgCase, clientSends bool, ops string, maxSeq uint64, seed uint64) run.Outcome {
 	var o run.Outcome
 	world.Run(t, seed, func(w *world.World) {
 		pr, err := cc.v.Setup(w, p)
@@ -317,7 +324,7 @@ func wrapRun(t *testing.T, p *world.PKI, cc cfgCase, clientSends bool, ops strin
 				peerLast = d.Data
 			}
 		}
-		const maxSeq = uint64(1)<<48 - 1
+		final := maxSeq == uint64(1)<<48-1
 		var epoch uint16
 		dtls.VerifPoke(x.Conn, func(in dtls.VerifInternals) {
 			cs := dtlsstate.CommonState(in.State)
@@ -373,6 +380,15 @@ func wrapRun(t *testing.T, p *world.PKI, cc cfgCase, clientSends bool, ops strin
 		switch {
 		case v != "":
 			o.Violation = fmt.Sprintf("config=%s sender=%s boundary ops=%s: %s", cc.name, x.Name, ops, v)
+		case !final:
+			for i, e := range errs {
+				if e != nil {
+					o.Violation = fmt.Sprintf("config=%s sender=%s ops=%s around sequence number %d: write #%d failed (%v) although the counter is nowhere near 2^48", cc.name, x.Name, ops, maxSeq, i, e)
+				}
+			}
+			if len(seqs) < len(errs) {
+				o.Violation = fmt.Sprintf("config=%s sender=%s ops=%s around sequence number %d: %d writes returned nil but only %d records of the epoch were emitted and opened under the reference keys at their numbers: %v", cc.name, x.Name, ops, maxSeq, len(errs), len(seqs), seqs)
+			}
 		default:
 			// application writes: the first two record numbers (2^48-2, 2^48-1) are available to whoever emits first;
 			// once the counter is exhausted every Write must fail
@@ -520,6 +536,11 @@ func TestC09(t *testing.T) {
 					cc, clientSends, k, act := cc, clientSends, k, act
 					cases = append(cases, run.Case{ID: fmt.Sprintf("%s/%s/loss-%d-%s", cc.name, side, k, act), Run: func(t *testing.T) run.Outcome { return lossRun(t, p, cc, clientSends, k, act, env.Seed+1) }})
 				}
+			}
+			// boundaries of the DTLS 1.3 wire encoding of the number (16 bits) and of 32-bit arithmetic
+			for _, at := range []uint64{1<<16 - 1, 1<<32 - 1} {
+				cc, clientSends, at := cc, clientSends, at
+				cases = append(cases, run.Case{ID: fmt.Sprintf("%s/%s/seq-boundary-%d-wwww", cc.name, side, at+1), Run: func(t *testing.T) run.Outcome { return wrapRunAt(t, p, cc, clientSends, "wwww", at, env.Seed+1) }})
 			}
 			for _, ops := range wrapOps {
 				cc, clientSends, ops := cc, clientSends, ops
